@@ -2,11 +2,8 @@ import PraatModel.Proto
 
 /-! # driver operations for C01-C04: save path, emitters, parsers (extension point of `Run.lean`) -/
 
-section
-variable {α : Type} [LT α] [LE α] [DecidableLT α] [DecidableLE α] [BEq α] [Add α] [Sub α] [Tm α] [Proto α]
-
-/-- `none` = not an operation of this group -/
-def runOpIO (op : String) : Option (P String) :=
+/-- `none` = not an operation of this group.  `α` is the number type of the run (`Float` or `Int`). -/
+def runOpIO (α : Type) [LT α] [LE α] [DecidableLT α] [DecidableLE α] [BEq α] [Add α] [Sub α] [Tm α] [Proto α]
+    (op : String) : Option (P String) :=
   match op with
   | _ => none
-end
